@@ -561,7 +561,10 @@ def check_capacity(ctx, rep, m):
             continue
         argk = v.items[0].term[1]
         # must be item 0 of the groups() of the atom pattern match
-        if not (argk and argk[0] == "unk" and isinstance(argk[1], tuple) and argk[1][0] == "item" and argk[1][2] == 0):
+        first_group = argk and argk[0] == "unk" and isinstance(argk[1], tuple) and (
+            (argk[1][0] == "item" and argk[1][2] == 0) or
+            (argk[1][0] == "group" and argk[1][2] == 1 and "SELFIES_ATOM_PATTERN" in repr(argk[1][1])))
+        if not first_group:
             probs.append("bond order is not derived from the first pattern group")
         else:
             good += 1
